@@ -697,6 +697,7 @@ func ruleAnonTag(c *Ctx, rule string) {
 		// only an embedded STRUCT has fields to promote: an embedded named non-struct type is an ordinary
 		// field named after the type, so the decision to skip the embedded field must look at its kind
 		kindTested := false
+		otherKind := ""
 		c.eachFam(m.fn, func(j ssa.Instruction) {
 			bo, ok := j.(*ssa.BinOp)
 			if !ok || (bo.Op != token.EQL && bo.Op != token.NEQ) || !region.Dominates(bo.Block()) {
@@ -707,6 +708,22 @@ func ruleAnonTag(c *Ctx, rule string) {
 				k, isK := pair[1].(*ssa.Const)
 				if !isCall || !isK || !kc.Call.IsInvoke() || kc.Call.Method.Name() != "Kind" {
 					continue
+				}
+				if v, ok := constInt(k); ok && v != int64(kStruct) && v != int64(kPointer) && bo.Op == token.EQL {
+					// a test for any other kind in the decision: fields of that kind would be treated like structs
+					for _, src := range append(traceSources(kc.Call.Value), kc.Call.Value) {
+						onField := c.mentionsNamedField(src, "Type", 4)
+						if ec, ok := src.(*ssa.Call); ok && ec.Call.IsInvoke() && ec.Call.Method.Name() == "Elem" {
+							for _, s2 := range append(traceSources(ec.Call.Value), ec.Call.Value) {
+								if c.mentionsNamedField(s2, "Type", 4) {
+									onField = true
+								}
+							}
+						}
+						if onField && v >= 0 && v < nKinds {
+							otherKind = Kinds(int(v)).String() + " (test at " + c.pos(bo) + ")"
+						}
+					}
 				}
 				if v, ok := constInt(k); !ok || v != int64(kStruct) {
 					continue
@@ -725,6 +742,7 @@ func ruleAnonTag(c *Ctx, rule string) {
 				}
 			}
 		})
+		c.R.Check(otherKind == "", rule, "forType:field.Anonymous:no-other-kind-promoted", c.pos(ifi), "the only kinds tested in the decision to flatten an embedded field are Struct and Pointer", "the decision to flatten an embedded field also tests for the kind "+otherKind+": an embedded field of that kind has no fields to promote and is an ordinary field named after its type for encoding/json, but it is left out of the inferred properties, required names and PropertyOrder")
 		if strings.HasPrefix(rule, "C04/") {
 			c.R.Check(kindTested, rule, "forType:field.Anonymous:promotes-only-structs", c.pos(ifi), "an embedded field is skipped (its fields being promoted) only when its type is a struct", "an embedded field is skipped whatever its kind: struct{ MyString } (type MyString string) marshals as {\"MyString\":\"...\"} but the inferred schema has no such property and is closed, so the encoding is rejected")
 		}
